@@ -545,7 +545,7 @@ for nm, fname, tier in [("validate", "validate", "quick"), ("is_point_outside", 
                   desc="is_point_outside swallows the StaleHull error") if nm == "is_point_outside" else None)
 
 K("tri.validation_report", ["C05"], TRI, "triangulation.rs", "validation_report_contract", "K-callee",
-  [fn(TRI, "validation_report", anchor=r"pub\(crate\) fn validation_report\(&self\) -> Result<\(\), TriangulationValidationReport>")], timeout=1500,
+  [fn(TRI, "validation_report", anchor=r"pub\(crate\) fn validation_report\(&self\) -> Result<\(\), TriangulationValidationReport>")], tier="thorough", timeout=5400,
   obligations=["report-iff-validate", "all-consulted", "nonempty-err", "mapping-stop"], assumed=[_ASSUME_VALIDATORS],
   bounded="element loops over vertices / cells run on the empty Tds (0 elements); the call structure around them is unbounded",
   claim="Triangulation::validation_report is empty <=> structural report && Level 3 && completion-time check all pass (F7 fixed: the same conjunction validate() decides)",
@@ -598,26 +598,27 @@ K("tds.remove_missing_cell", ["C11"], TDS, "tds.rs", "remove_missing_cell_contra
   [fn(TDS, "remove_cell_by_key")], tier="thorough", timeout=900, obligations=["missing-noop"],
   bounded="empty Tds (every key is missing)",
   claim="Tds::remove_cell_by_key on a key that is not present: None, generation unchanged")
-K("tri.adjacent_cells", ["C15"], TRI, "triangulation.rs", "adjacent_cells_contract", "K-callee",
-  [fn(TRI, "adjacent_cells", anchor=r"pub fn adjacent_cells\(&self, v: VertexKey\)")], timeout=1500,
-  assumed=["Tds::find_cells_containing_vertex_by_key (stub): the stored star, 0..2 cells; Tds::get_vertex_by_key (stub): any vertex record (absent / without / with incident-cell hint)"],
-  bounded="stars of 0..2 cells (concrete keys)", obligations=["star-is-stored-star"],
-  claim="Triangulation::adjacent_cells(v) yields exactly the stored star of v for every state of the vertex's incident-cell hint")
+for _nm, _tier in [("n1_nohint", "quick"), ("n2_nohint", "thorough"), ("n2_hint", "thorough"), ("n0_absent", "thorough")]:
+    K(f"tri.adjacent_cells.{_nm}", ["C15"], TRI, "triangulation.rs", f"adjacent_cells_{_nm}", "K-callee",
+      [fn(TRI, "adjacent_cells", anchor=r"pub fn adjacent_cells\(&self, v: VertexKey\)")], tier=_tier, timeout=900 if _tier == "quick" else 5400,
+      assumed=["Tds::find_cells_containing_vertex_by_key (stub): the stored star; Tds::get_vertex_by_key (stub): the vertex record (absent / without / with incident-cell hint)"],
+      bounded="stars of 0..2 cells (concrete keys, one instance per star size and vertex-record state)", obligations=["star-is-stored-star"],
+      claim="Triangulation::adjacent_cells(v) yields exactly the stored star of v for every state of the vertex's incident-cell hint")
 
 TOPOV = "src/topology/characteristics/validation.rs"
-for d, tier in [(3, "quick"), (2, "thorough")]:
-    K(f"euler.classify.d{d}", ["C15"], TOPOV, "topo_validation.rs", f"euler_classify_d{d}", "K-callee",
+for d, wb, tier in [(3, "ball", "thorough"), (3, "closed", "quick"), (2, "ball", "thorough"), (2, "closed", "thorough")]:
+    K(f"euler.classify.d{d}.{wb}", ["C15"], TOPOV, "topo_validation.rs", f"euler_classify_d{d}_{wb}", "K-callee",
       [fn(TOPOV, "validate_triangulation_euler_with_facet_to_cells_map")], tier=tier, timeout=1500,
       assumed=["count_simplices_with_facet_to_cells_map (stub: any f-vector), euler_characteristic (stub: any chi; proved by euler.len*), Tds::number_of_cells (stub: any count); format! stubbed"],
-      bounded="facet map with one interior facet and optionally one boundary facet (concrete keys)",
-      obligations=["chi-reported", "empty", "single", "ball", "sphere"],
+      bounded="facet map with a single facet: " + ("a boundary facet" if wb == "ball" else "an interior facet") + " (concrete key)",
+      obligations=["chi-reported", "empty", "single"] + (["ball"] if wb == "ball" else ["sphere"]),
       claim="classification + expected chi of the Level-3 Euler check: >= 1 cell with a boundary facet => Ball/SingleSimplex held to chi = 1; closed => 1 + (-1)^D; computed chi reported unchanged",
       mutant=dict(file=TOPOV, old="    } else if facet_to_cells.values().any(|cells| cells.len() == 1) {", new="    } else if facet_to_cells.values().all(|cells| cells.len() == 1) {",
-                  desc="ball classification requires ALL facets to be boundary facets") if d == 3 else None)
+                  desc="ball classification requires ALL facets to be boundary facets") if (d, wb) == (3, "ball") else None)
 
 BUILDER = "src/core/builder.rs"
 K("builder.canonicalize_vertices", ["C16"], BUILDER, "builder.rs", "canonicalize_vertices_contract", "K-callee",
-  [fn(BUILDER, "canonicalize_vertices")], timeout=1200, no_playback=True,
+  [fn(BUILDER, "canonicalize_vertices")], tier="thorough", timeout=5400, no_playback=True, mem_gb=22,
   assumed=["GlobalTopologyModel::canonicalize_point_in_place replaced by an arbitrary model (rewrites or refuses; contract of the real ToroidalModel proved by canon_model.*); format! stubbed"],
   bounded="2 input vertices",
   obligations=["err-propagates", "same-length", "uuid-kept", "data-kept", "coords-from-model", "untouched-axes", "err-only-from-model", "first-error-stops"],
@@ -699,3 +700,32 @@ for nm, sl, har in [("insert", _SL_INS, "insert_snapshot_decision"), ("insert_wi
       mutant=dict(file=DT, old="                    .should_check(next_insertion_count));\n        let snapshot = snapshot_needed.then(|| {\n            (\n                self.tri.tds.clone(),\n                self.insertion_state,\n                self.spatial_index.clone(),\n            )\n        });\n\n        let insertion_result = (|| {\n            let hint = self.insertion_state.last_inserted_cell;\n            let (outcome, _stats) = {",
                   new="                    .should_check(self.insertion_state.delaunay_repair_insertion_count));\n        let snapshot = snapshot_needed.then(|| {\n            (\n                self.tri.tds.clone(),\n                self.insertion_state,\n                self.spatial_index.clone(),\n            )\n        });\n\n        let insertion_result = (|| {\n            let hint = self.insertion_state.last_inserted_cell;\n            let (outcome, _stats) = {",
                   desc="snapshot decision evaluated on the stale (pre-increment) insertion count") if nm == "insert" else None)
+
+_SL_ORI = dict(file=TRI, fn_anchor=r"pub\(in crate::core\) fn validate_geometric_cell_orientation\(", name="verif_slice_orientation_decision",
+               params="&self, orientation: i32, cell_key: CellKey, cell: &Cell<K::Scalar, U, V, D>", ret="Result<(), TriangulationValidationError>",
+               stmts=[dict(block=r"if orientation == 0 \{"), dict(block=r"if orientation < 0 \{")], result="Ok(())")
+K("tri.orientation_decision", ["C05"], TRI, "tri_slices.rs", "orientation_decision_contract", "K-slice",
+  [dict(file=TRI, name="Triangulation::validate_geometric_cell_orientation (K-slice: loop body)", anchor=_SL_ORI["fn_anchor"])],
+  slices=[_SL_ORI], extra_attach=[("src/core/cell.rs", "cell_helper.rs")], timeout=900,
+  assumed=["K-slice: the two `if orientation ..` statements of the loop body, everything else (cell iteration, the orientation predicate itself) dropped; format! stubbed"],
+  obligations=["positive-only"],
+  claim="per-cell decision of validate_geometric_cell_orientation: Ok <=> orientation > 0 (flat and inverted cells rejected), for every i32 orientation value",
+  mutant=dict(file=TRI, old="            if orientation == 0 {\n                return Err(TdsValidationError::InconsistentDataStructure {\n                    message: format!(\n                        \"Cell {:?} (key {cell_key:?}) has degenerate geometric orientation\",",
+              new="            if orientation == i32::MIN {\n                return Err(TdsValidationError::InconsistentDataStructure {\n                    message: format!(\n                        \"Cell {:?} (key {cell_key:?}) has degenerate geometric orientation\",",
+              desc="flat cells (orientation == 0) no longer rejected"))
+
+K("builder.canonicalize_one", ["C16"], BUILDER, "builder.rs", "canonicalize_one_vertex_contract", "K-callee",
+  [fn(BUILDER, "canonicalize_vertices")], tier="thorough", timeout=3600, no_playback=True,
+  assumed=["GlobalTopologyModel::canonicalize_point_in_place replaced by an arbitrary model with an arbitrary periodic domain (rewrites or refuses); format! stubbed"],
+  bounded="1 input vertex (2 vertices: unit builder.canonicalize_vertices, thorough tier)",
+  obligations=["err-propagates", "same-length", "identity-kept", "coords-from-model", "untouched-axes", "err-only-from-model"],
+  claim="canonicalize_vertices on one vertex, any coordinate and any periodic domain: the vertex always goes through the model, keeps UUID and data, a model error is returned",
+  mutant=dict(file=BUILDER, old="            let new_vertex = Vertex::new_with_uuid(new_point, v.uuid(), v.data);", new="            let new_vertex = Vertex::new_with_uuid(new_point, v.uuid(), None);",
+              desc="user data dropped while canonicalising"))
+
+K("builder.canonicalize_one_ok", ["C16"], BUILDER, "builder.rs", "canonicalize_one_vertex_ok_contract", "K-callee",
+  [fn(BUILDER, "canonicalize_vertices")], timeout=900, no_playback=True,
+  assumed=["GlobalTopologyModel::canonicalize_point_in_place replaced by a model that accepts and rewrites every point, with an arbitrary periodic domain; format! stubbed"],
+  bounded="1 input vertex, accepting model (the Err plumbing: builder.canonicalize_one / builder.canonicalize_vertices, thorough tier)",
+  obligations=["same-length", "identity-kept", "coords-from-model", "untouched-axes"],
+  claim="canonicalize_vertices on one vertex, any coordinate and any periodic domain: the vertex always goes through the model and keeps UUID and data")
